@@ -25,7 +25,7 @@ func profC07(t *tape.Tape) model.Profile {
 		PrefixTraps: t.Chance(1, 3), Posix: t.Sub("posix").Chance(1, 4),
 		Mods: [2]int{2, 5}, Subs: [2]int{0, 3}, Typedefs: [2]int{0, 2}, Identities: [2]int{0, 1}, Groupings: [2]int{0, 3},
 		TopNodes: [2]int{1, 4}, Augments: [2]int{1, 10}, Deviations: [2]int{0, 0}, Depth: 3,
-		Invalid: []string{model.InvAugMissing, model.InvAugLeaf, model.InvAugCollision, model.InvAugCollisionOwn}, InvalidPct: 8, MaxInvalid: 1,
+		Invalid: []string{model.InvAugMissing, model.InvAugLeaf, model.InvAugCollision, model.InvAugCollisionOwn, model.InvDupUses}, InvalidPct: 8, MaxInvalid: 1,
 		OrderTraps: true, Extras: t.Chance(1, 2),
 	}
 	if t.Chance(3, 5) {
@@ -53,7 +53,7 @@ func profC06(t *tape.Tape) model.Profile {
 		PrefixTraps: t.Chance(1, 3), Posix: t.Sub("posix").Chance(1, 4),
 		Mods: [2]int{1, 4}, Subs: [2]int{0, 2}, Typedefs: [2]int{1, 3}, Identities: [2]int{0, 2}, Groupings: [2]int{2, 5},
 		TopNodes: [2]int{2, 5}, Augments: [2]int{0, 3}, Deviations: [2]int{0, 4}, DevMods: [2]int{1, 2}, Depth: 4,
-		Invalid: []string{model.InvUnknownGrouping, model.InvUsesCycle}, InvalidPct: 4, MaxInvalid: 1,
+		Invalid: []string{model.InvUnknownGrouping, model.InvUsesCycle, model.InvDupUses}, InvalidPct: 5, MaxInvalid: 1,
 		UsesHeavy: true, Extras: t.Chance(1, 3),
 	}
 	if t.Chance(4, 5) {
